@@ -7,16 +7,26 @@ From KG Require Import Prelude C13_Model C19_Model C19_Proofs C18_Model C18_Proo
 Open Scope Z_scope.
 
 (* an instance that is in the client cache and, at every timeout pass of the history, has a
-   heartbeat at most 3 s old, keeps every condition and every counted in-flight it has — through
-   both kinds of cleanup pass and through anything the other instances do (its own reports and
-   acquires, which replace that state, are excluded by [idle]) *)
-Theorem C18_live_kept : forall c ah i ops s h,
+   heartbeat at most 3 s old, keeps its condition and its counted in-flight for every upstream that
+   stays in the lister — through both kinds of cleanup pass and through anything the other instances
+   do (its own reports and acquires, which replace that state, are excluded by [idle]) *)
+Theorem C18_live_kept : forall c ah i u ops s h,
   Inv true s -> alookup String.eqb i (hb s) = Some h -> live_along c ah i s ops -> Forall (idle i) ops ->
+  str_mem u (lister s) = true -> Forall (fun o => o <> ClusterGone u) ops ->
   let s' := run_state c true ah s ops in
   (exists h', alookup String.eqb i (hb s') = Some h')
-  /\ (forall u, cond_of u i s' = cond_of u i s) /\ (forall u, count_of u i s' = count_of u i s).
+  /\ cond_of u i s' = cond_of u i s /\ count_of u i s' = count_of u i s.
 Proof. exact live_kept. Qed.
 Print Assumptions C18_live_kept.
+
+(* an upstream that left the lister without its handler running is deleted as a whole by the
+   unknown-condition pass (conditions, recorded sum, counted in-flight) as soon as it holds a condition
+   — the upstream state condition included — of an instance that is not in the cache *)
+Theorem C18_orphan_upstream_removed : forall c lf ah s u, orphan s u = true ->
+  let s' := fst (step c lf ah s TickUnknown) in
+  (forall i, cond_of u i s' = None) /\ alookup String.eqb u (sums s') = None /\ (forall i, count_of u i s' = None).
+Proof. exact orphan_removed. Qed.
+Print Assumptions C18_orphan_upstream_removed.
 
 (* code before the repair (label copied from the previous condition): refuted *)
 Theorem C18_live_kept_refuted :
@@ -63,7 +73,7 @@ Print Assumptions C18_reclaimed_refuted.
 (* a report records the allocated sum of its upstream as the sum over the conditions that exist:
    an instance without a condition (reclaimed) contributes nothing to what the survivors see *)
 Theorem C18_capacity_returns : forall c lf ah s u j q i,
-  str_mem u (ups c) = true ->
+  alookup String.eqb u (sums s) <> None ->
   let s' := fst (step c lf ah s (Report u j q)) in
   alookup String.eqb u (sums s') = Some (sum_quota u (conds s'))
   /\ (forall u' i', (u', i') <> (u, j) -> cond_of u' i' s' = cond_of u' i' s)
